@@ -216,8 +216,9 @@ def gen_encs(r, mode, pattern, vector="mix", share=True, decoys=None):
         if r.random() < 0.7:
             # settings of the detector's sub-objects, read back by every run: pre-amplification, full well, ADC bits,
             # thickness, pixel sizes (small integers)
+            # ... and of the readout handed to every task: time of the only step, destructive or not
             case["det"] = [r.randrange(1, 13), r.randrange(1, 13), r.randrange(8, 13), r.randrange(1, 13),
-                           r.randrange(1, 13), r.randrange(1, 13)]
+                           r.randrange(1, 13), r.randrange(1, 13), r.randrange(1, 13), r.randrange(0, 2)]
     return case
 
 
